@@ -67,7 +67,7 @@ def pause_gate(chk: Check) -> None:
         if ('none', PAUSED) in false_atoms:
             true_side = cfg.reachable([s for s, l in t.succ if l == 'true'], include_src=True, edge_ok=no_exc)
             # on the true branch the await comes before the execute
-            if awaits and all(cfg.must_pass(s, execs, lambda m: m in awaits, edge_ok=no_exc) for s, l in t.succ if l == 'true'):
+            if awaits and all(cfg.must_pass(s, execs, lambda m: m in awaits, edge_ok=ff.feasible) for s, l in t.succ if l == 'true'):
                 gates.append(t)
     ok = bool(gates) and all(cfg.must_pass(cfg.entry, [e], lambda m: m in gates, edge_ok=no_exc) for e in execs)
     chk.ob('DOM-pause-gate', step, ok, 'every path to the execution of the state passes a test that is true whenever the process is paused and whose '
